@@ -178,6 +178,60 @@ def comments_at_character_level(run, thorough):
     return stats
 
 
+def blanks_at_token_ends(run, thorough):
+    """LexStable.v against the real parser: expression, update and query texts squeezed (no blank except between two words, as long as the extracted scanner still
+    finds the same tokens); a blank (or tab) written at a position the extracted `ends` lists must leave the real parse tree unchanged - and so must the squeezing itself"""
+    rng = run.rng
+    st = collections.Counter()
+    dl, e1 = vlib.build_extract('lex', 'Extract_Lex.v', 'drv_lex')
+    de, e2 = vlib.build_extract('ends', 'Extract_Ends.v', 'drv_ends') if os.path.exists(os.path.join(vlib.COQ, 'theories', 'LexStable.vo')) else (None, 'LexStable.vo missing')
+    if dl is None or de is None:
+        run.tie_broken('extraction of the scanner / token-end model', e1 or e2)
+        return st
+    texts = list(dict.fromkeys(crashgen.EXPR + ['g<=3&&x-y<2', 'a[g]+f(1,g,2)*2', 'b?g:1', 'g=1,b=false', '1.5e3+g', 'g/*c*/+/**/1', 'g//tail', 'x<=3 /* c */ && g>0', 'g<?1>?2', 'g<<1>>2', 'g--+--g', 'g- -1', 'g&&!b||b']))
+    hx = lambda t: t.encode().hex()
+    run_drv = lambda d, ts: subprocess.run([d], input='\n'.join(hx(t) for t in ts) + '\n', stdout=subprocess.PIPE, universal_newlines=True).stdout.split('\n')
+    squeezed = []
+    for t in texts:
+        toks, out = crashgen.tokens(t), ''
+        for tk in toks:
+            out += (' ' if out and (out[-1].isalnum() or out[-1] in "_'") and (tk[0].isalnum() or tk[0] == '_') else '') + tk
+        squeezed.append(out)
+    lo, ls = run_drv(dl, texts), run_drv(dl, squeezed)
+    kinds = lambda line: [w.split(':')[0] + ':' + w.split(':')[1] for w in line.split()]
+    base = [q if kinds(a) == kinds(b_) and a != 'UNCLOSED' else t for t, q, a, b_ in zip(texts, squeezed, lo, ls)]
+    st['squeezed'] = sum(1 for t, q in zip(texts, base) if t != q)
+    ends = run_drv(de, base)
+    FIX = ('int g; bool b; clock x, y; int a[3]; int f(int p, int q, int r) { return p; } struct { int a; bool b; } s; chan c; chan d[3]; typedef int[0,3] id_t; typedef scalar[2] S;\n'
+           'process P() { int v; state L; init L; }\nsystem P;\n')
+    j, plan = vlib.Job(), []
+    for k, (t, q, en) in enumerate(zip(texts, base, ends)):
+        ps = [int(x) for x in en.split()]
+        c = j.case('e%d' % k, fork=True).model('xta', FIX).expr(t).expr(q)
+        chosen = ps if thorough else rng.sample(ps, min(len(ps), 4))
+        for p_ in chosen:
+            c.expr(q[:p_] + rng.choice([' ', '\t', '  ']) + q[p_:])
+        c.end()
+        plan.append((k, t, q, chosen))
+    rr = vlib.run_jobs(j)
+    for k, t, q, chosen in plan:
+        c = rr['e%d' % k]
+        if c['status'] != 'ok':
+            run.fail('parser crashed on %r' % q, dict(text=q, status=c['status']), shape='crash')
+            continue
+        tree = lambda cm: [re.sub(r' ctx=.*$', '', l) for l in cm[2] if l.startswith('tree ') or l.startswith('error')]
+        t0 = tree(c['cmds'][1])
+        if tree(c['cmds'][2]) != t0:
+            run.fail('%r and %r have the same tokens by the scanner model but parse differently' % (t, q), dict(original=t, squeezed=q, a=t0[:2], b=tree(c['cmds'][2])[:2]), shape='blank:squeeze')
+            continue
+        for i, p_ in enumerate(chosen):
+            st['insertions'] += 1
+            if tree(c['cmds'][3 + i]) != t0:
+                run.fail('a blank written at position %d of %r (the end of a token by the scanner model) changes the parse' % (p_, q), dict(text=q, position=p_, before=t0[:2], after=tree(c['cmds'][3 + i])[:2]), shape='blank:token-end')
+    st['texts'] = len(plan)
+    return st
+
+
 def check(run):
     thorough = run.tier == 'thorough'
     rng = run.rng
@@ -188,6 +242,7 @@ def check(run):
         run.tie_broken('reader of the <comment> rules of lexer.l', str(e))
     run.proofs()
     cstats = comments_at_character_level(run, thorough)
+    cstats.update({'blank_' + k: v for k, v in blanks_at_token_ends(run, thorough).items()})
     n = 2500 if thorough else 320
     j = vlib.Job()
     plan = []
